@@ -206,7 +206,15 @@ func runC03(r *core.Run) {
 		// every appended LENGTH 1..300 (two fills) for the all-default base of every family, and for every
 		// LeaseSet base: a decision taken from the number of bytes that follow shows at one length only
 		if in.Class == "base" && (len(in.Devs) == 0 || in.Family == "LeaseSet") {
+			lens := make([]int, 0, 310)
 			for n := 1; n <= 300; n++ {
+				lens = append(lens, n)
+			}
+			// and what follows a structure inside a larger buffer (a bundle of records, a reseed file): kilobytes
+			if len(in.Devs) == 0 {
+				lens = append(lens, 1000, 3000, 4096, 5000, 16384, 65536, 70000)
+			}
+			for _, n := range lens {
 				for _, fill := range []byte{0x00, 0xff} {
 					m := *in
 					m.Bytes = append(append([]byte(nil), in.Bytes...), bytes.Repeat([]byte{fill}, n)...)
